@@ -195,6 +195,25 @@ func newBinaryExprGuard(expr *influxql.BinaryExpr) *exprGuard {
 		// incoming point. The decision here is to match any point that has a possibly
 		// expensive match if there is any overlap on the tags. In other words, expensive
 		// matches get transformed into trivially matching everything.
+		//
+		// A point without the tag is compared as if the tag were the empty string (that is how
+		// the index selects the series to delete), and the measurement name is not a tag: in both
+		// cases points that do not carry the key can be selected, so match everything.
+		if key.Val == "_name" {
+			return nil
+		}
+		switch expr.Op {
+		case influxql.EQREGEX:
+			if value.Val == nil || value.Val.MatchString("") {
+				return nil
+			}
+		case influxql.NEQREGEX:
+			if value.Val == nil || !value.Val.MatchString("") {
+				return nil
+			}
+		default: // any other operator isn't valid. conservatively match everything.
+			return nil
+		}
 		return &exprGuard{tagExists: map[string]struct{}{key.Val: {}}}
 
 	case *influxql.VarRef:
@@ -204,6 +223,10 @@ func newBinaryExprGuard(expr *influxql.BinaryExpr) *exprGuard {
 
 		// since every point has a measurement, always match if either are on the measurement.
 		if key.Val == "_name" || value.Val == "_name" {
+			return nil
+		}
+		// anything but equality also selects points that have neither tag.
+		if expr.Op != influxql.EQ {
 			return nil
 		}
 		return &exprGuard{tagExists: map[string]struct{}{
@@ -233,11 +256,13 @@ func (g *exprGuard) matches(pt models.Point) bool {
 			return g.tagMatches.op(pt.Name())
 		}
 		for _, tag := range pt.Tags() {
-			if bytes.Equal(tag.Key, g.tagMatches.key) && g.tagMatches.op(tag.Value) {
-				return true
+			if bytes.Equal(tag.Key, g.tagMatches.key) {
+				return g.tagMatches.op(tag.Value)
 			}
 		}
-		return false
+		// a tag the point does not have compares as the empty string, as it does
+		// when the index selects the series to delete.
+		return g.tagMatches.op(nil)
 
 	case g.tagExists != nil:
 		for _, tag := range pt.Tags() {
